@@ -1252,3 +1252,78 @@ Theorem judge_known_narrow ops b c : judge ops b = FailsKnown c ->
   (c = 1 /\ known_collateral_plutus ops = true) \/ (c = 3 /\ known_collateral_plutus ops = false /\ known_stale_spend ops = true)
   \/ (c = 2 /\ known_prop_nonscript ops = true).
 Proof. unfold judge. cbv zeta. apply verdict_of_known. Qed.
+
+(* ======================== for pairwise distinct inputs the stale-witness class is empty ======================== *)
+Lemma NoDup_map_eq {A B} (f : A -> B) (l : list A) a b : NoDup (map f l) -> In a l -> In b l -> f a = f b -> a = b.
+Proof.
+  induction l as [|x t IH]; [contradiction|]. cbn [map]. intros ND Ha Hb E. inversion ND as [|? ? Hx NDt]; subst.
+  destruct Ha as [->|Ha], Hb as [->|Hb]; [reflexivity | | | apply IH; assumption].
+  - exfalso. apply Hx. rewrite E. apply in_map, Hb.
+  - exfalso. apply Hx. rewrite <- E. apply in_map, Ha.
+Qed.
+
+Definition scripts_from (st : ibuilder) (ops : list in_op) : Prop :=
+  forall h inner o w, In (h, inner) (ib_scripts st) -> In (o, w) inner ->
+    exists op w', In op ops /\ in_op_key op = o /\ in_op_val op = Some (h, w').
+
+Lemma scripts_from_set_wit h o w st ops :
+  scripts_from st ops -> (exists op w', In op ops /\ in_op_key op = o /\ in_op_val op = Some (h, w')) ->
+  scripts_from (ib_set_wit h o w st) ops.
+Proof.
+  intros P Hop h' inner' o' w' Hin Hin'. unfold ib_set_wit in Hin. cbn [ib_scripts] in Hin.
+  apply lm_insert_In in Hin as [E|Hin]; [|eapply P; eassumption].
+  injection E as -> ->. apply lm_insert_In in Hin' as [E|Hin'].
+  - injection E as -> ->. exact Hop.
+  - destruct (al_get bytes_ltb h (ib_scripts st)) as [m|] eqn:Em; [|contradiction].
+    apply (al_get_In bytes_ltb bytes_strict_total) in Em. eapply P; eassumption.
+Qed.
+
+Lemma scripts_from_run ops : scripts_from (fold_left ib_step ops ib_empty) ops.
+Proof.
+  induction ops as [|op ops IH] using rev_ind; [intros ? ? ? ? []|].
+  rewrite fold_left_app. cbn [fold_left].
+  assert (Hw : scripts_from (fold_left ib_step ops ib_empty) (ops ++ [op])).
+  { intros h inner o w H1 H2. destruct (IH _ _ _ _ H1 H2) as (op' & w' & Hin & R). exists op', w'. rewrite in_app_iff. auto. }
+  destruct op as [o|h o|h o rid]; cbn [ib_step].
+  - exact Hw.
+  - unfold ib_add_script. apply scripts_from_set_wit; [apply scripts_from_set_wit; [exact Hw|]|];
+      exists (InNative h o), WNative; rewrite in_app_iff; cbn; auto.
+  - unfold ib_add_script. apply scripts_from_set_wit; [apply scripts_from_set_wit; [exact Hw|]|];
+      exists (InPlutus h o rid), (WPlutus rid); rewrite in_app_iff; cbn; auto.
+Qed.
+
+Lemma distinct_inputs_no_stale ops : NoDup (map in_op_key ops) -> ib_stale (fold_left ib_step ops ib_empty) = false.
+Proof.
+  intros ND. destruct (ib_stale (fold_left ib_step ops ib_empty)) eqn:S; [|reflexivity]. exfalso.
+  destruct (spend_refine ops) as (_ & B & _). pose proof (scripts_from_run ops) as P.
+  set (st := fold_left ib_step ops ib_empty) in *.
+  unfold ib_stale in S. apply existsb_exists in S as ([h inner] & Hh & S). apply existsb_exists in S as ([o w] & Ho & S).
+  cbn [fst snd] in S. destruct w as [[|rid]|]; try discriminate.
+  destruct (al_get outpoint_ltb o (ib_inputs st)) as [[h'|]|] eqn:Ei; try discriminate.
+  apply negb_true_iff, (eqb_of_false _ bytes_strict_total) in S.
+  destruct (P _ _ _ _ Hh Ho) as (op1 & w1 & In1 & K1 & V1).
+  rewrite B in Ei. destruct (spend_final ops o) as [[[h2 w2]|]|] eqn:F; cbn in Ei; try discriminate. injection Ei as ->.
+  apply final_last_origin in F; [|intros x y E; apply (eqb_of_true _ outpoint_st), E]. destruct F as (op2 & In2 & _ & K2 & V2).
+  assert (op1 = op2) by (eapply NoDup_map_eq; [exact ND | assumption | assumption | congruence]). subst op2.
+  rewrite V1 in V2. injection V2 as -> _. apply S. reflexivity.
+Qed.
+
+Theorem distinct_items_no_stale ops : distinct_items ops -> known_stale_spend ops = false.
+Proof.
+  intros (Di & _). unfold known_stale_spend. rewrite run_state, proj_inputs. apply distinct_inputs_no_stale, Di.
+Qed.
+
+(* the order theorem for SETS of items: the stale-witness class cannot occur, on either side *)
+Theorem c10_order_irrelevant_sets ops ops' st flags b st' flags' b' :
+  Permutation ops ops' -> distinct_items ops ->
+  run ops = (st, flags) -> tx_build st = Ok b -> run ops' = (st', flags') -> tx_build st' = Ok b' ->
+  known_collateral_plutus ops = false -> known_collateral_plutus ops' = false ->
+  forall r, r_tag r <> TCert -> (In r (b_redeemers b) <-> In r (b_redeemers b')).
+Proof.
+  intros P D Hr Hb Hr' Hb' K1 K1'.
+  assert (K3 : known_stale_spend ops = false) by (apply distinct_items_no_stale, D).
+  assert (K3' : known_stale_spend ops' = false).
+  { unfold known_stale_spend. rewrite run_state, proj_inputs. apply distinct_inputs_no_stale. destruct D as (Di & _).
+    eapply Permutation_NoDup; [apply Permutation_map, Permutation_flat_map, P | exact Di]. }
+  eapply c10_order_irrelevant; eassumption.
+Qed.
